@@ -118,11 +118,15 @@ impl Container {
         let locator = Arc::new(ChainedLocator::new(locators));
 
         let pack_info = manifest_pack.get_directory_pack_info();
-        let directory_pack = Arc::new(DirectoryPack::new(
-            locator
-                .locate(pack_info.uuid, &pack_info.pack_location)?
-                .unwrap(),
-        )?);
+        // As for content packs, what is located may be the pack or a container embedding it.
+        let directory_reader = match locator.locate(pack_info.uuid, &pack_info.pack_location)? {
+            None => None,
+            Some(r) => open_as_container_pack(r)?.get_pack_reader(&pack_info.uuid),
+        };
+        if directory_reader.is_none() {
+            return Err(format_error!("Impossible to locate the directory pack"));
+        }
+        let directory_pack = Arc::new(DirectoryPack::new(directory_reader.unwrap())?);
         let value_storage = directory_pack.create_value_storage();
         let entry_storage = directory_pack.create_entry_storage();
         let mut packs = Vec::new();
